@@ -98,14 +98,17 @@ Definition hardcoded_ds : datasource := {| ds_class := hardcoded_class; ds_brack
 (* Text sources.  A text is a [list N]: for UTF-8 the list of scalar values of a (valid) &str,
    for UTF-16 the raw list of 16-bit units.  All positions are code-unit indices. *)
 
-Inductive enc := U8 | U16.
+(* U32: a ghost encoding in which every character is ONE unit (the text is its scalar list).  It has
+   no counterpart in the Rust crate; it is the character-level instance of the same generic model,
+   used to state that results do not depend on how many code units a character occupies. *)
+Inductive enc := U8 | U16 | U32.
 
 Definition len_utf8 (c : N) : nat :=                       (* char::len_utf8 *)
   if c <? 128 then 1%nat else if c <? 2048 then 2%nat else if c <? 65536 then 3%nat else 4%nat.
 Definition len_utf16 (c : N) : nat :=                      (* char::len_utf16 *)
   if c <? 65536 then 1%nat else 2%nat.
 Definition char_len (e : enc) (c : N) : nat :=             (* TextSource::char_len *)
-  match e with U8 => len_utf8 c | U16 => len_utf16 c end.
+  match e with U8 => len_utf8 c | U16 => len_utf16 c | U32 => 1%nat end.
 
 Definition REPLACEMENT : N := 65533.
 
@@ -237,9 +240,13 @@ Fixpoint take_units8 (t : list N) (n : nat) : option (list N) :=
 
 (* ---- the TextSource trait, by encoding ---- *)
 Definition t_len (e : enc) (t : list N) : nat :=
-  match e with U8 => len8 t | U16 => length t end.
+  match e with U8 => len8 t | U16 => length t | U32 => length t end.
 Definition t_char_at (e : enc) (t : list N) (i : nat) : option (N * nat) :=
-  match e with U8 => char_at8 t i | U16 => char_at16 t i end.
+  match e with
+  | U8 => char_at8 t i
+  | U16 => char_at16 t i
+  | U32 => match nth_error t i with Some c => Some (c, 1%nat) | None => None end
+  end.
 Definition t_subrange (site : nat) (e : enc) (t : list N) (a b : nat) : res (list N) :=
   match e with
   | U8 => if (a <=? b)%nat
@@ -249,15 +256,17 @@ Definition t_subrange (site : nat) (e : enc) (t : list N) (a b : nat) : res (lis
                end
           else Panic site
   | U16 => slice site t a b
+  | U32 => slice site t a b
   end.
 Definition t_char_indices (e : enc) (t : list N) : list (nat * N) :=
-  match e with U8 => char_indices8 t | U16 => char_indices16 t end.
+  match e with U8 => char_indices8 t | U16 => char_indices16 t | U32 => combine (seq 0 (length t)) t end.
 Definition t_indices_lengths (e : enc) (t : list N) : list (nat * nat) :=
   match e with
   | U8 => map (fun x => (fst x, len_utf8 (snd x))) (char_indices8 t)     (* Utf8IndexLenIter *)
   | U16 => indices_lengths16 t
+  | U32 => map (fun i => (i, 1%nat)) (seq 0 (length t))
   end.
 Definition t_chars (e : enc) (t : list N) : list N :=
-  match e with U8 => t | U16 => chars16 t end.
+  match e with U8 => t | U16 => chars16 t | U32 => t end.
 Definition t_chars_rev (e : enc) (t : list N) : res (list N) :=
-  match e with U8 => Ok (rev t) | U16 => chars16_rev t end.
+  match e with U8 => Ok (rev t) | U16 => chars16_rev t | U32 => Ok (rev t) end.
